@@ -77,6 +77,8 @@ func c8Configs(en *c8env) []*eval.Config {
 	a.ConstantMap["BIGS"] = bigS
 	a.VariableKeyMap["x"] = 1
 	a.VariableKeyMap["y"] = 2
+	a.VariableKeyMap["x_alias"] = 1 // two names for one slot (a renamed field)
+	a.VariableKeyMap["y_old"] = 2
 	for k, v := range ops {
 		a.OperatorMap[k] = v
 	}
@@ -104,8 +106,11 @@ func c8Configs(en *c8env) []*eval.Config {
 	c.CompileOptions[eval.ReportEvent] = true
 	c.StatelessOperators = []string{"f"}
 	c.CostsMap["variable"] = 0.5
-	return []*eval.Config{a, b, c}
+	// the fourth caller config is the nil config
+	return []*eval.Config{a, b, c, nil}
 }
+
+const c8nC = 4
 
 var c8Sources = []string{
 	"(and (= x 1) (= (f 1 2) 3) y)",
@@ -123,12 +128,14 @@ var c8Sources = []string{
 	";;;;reordering:false,optimize:true , fast_evaluation : false\n(and (= x (+ 1 2)) (or y (= (f 1 1) 2)))",
 	c8BigSrc(),
 	"(or (in x BIGI) (in KS BIGS) (= (f 1 2) 3))",
+	"(and (= 1 1) (> (+ 2 3) 4) (or (= 2 2) (< 1 0)))",
+	"(and (= x_alias 1) (or y_old (= x 2)))",
 }
 
 // c8Probe: sources used as the final step of long histories: plain sources
 // whose compilation is sensitive to leaked options / stateless declarations /
 // rearranged constants.
-var c8Probe = map[int]bool{0: true, 4: true, 5: true, 10: true, 13: true, 14: true}
+var c8Probe = map[int]bool{0: true, 4: true, 5: true, 10: true, 13: true, 14: true, 15: true, 16: true}
 
 func c8BigSrc() string {
 	var is, ss []string
@@ -141,6 +148,9 @@ func c8BigSrc() string {
 
 // c8Snapshot renders the public contents of a Config canonically.
 func c8Snapshot(c *eval.Config) string {
+	if c == nil {
+		return "nil config"
+	}
 	var sb strings.Builder
 	mp := func(name string, m reflect.Value) {
 		keys := m.MapKeys()
@@ -179,6 +189,32 @@ func (f c8fetch) Get(_ eval.VariableKey, s string) (eval.Value, error) {
 func (f c8fetch) Set(eval.VariableKey, string, eval.Value) error { return nil }
 func (f c8fetch) Cached(_ eval.VariableKey, s string) bool       { _, ok := f[s]; return ok }
 
+// c8keyfetch answers registered variables by their KEY (as the library's
+// slice fetcher does) and undefined-mode variables by name.
+type c8keyfetch struct {
+	byKey  map[eval.VariableKey]eval.Value
+	byName c8fetch
+}
+
+func (f c8keyfetch) Get(k eval.VariableKey, s string) (eval.Value, error) {
+	if k == eval.UndefinedVarKey {
+		return f.byName.Get(k, s)
+	}
+	v, ok := f.byKey[k]
+	if !ok {
+		return nil, fmt.Errorf("no key %d", k)
+	}
+	return v, nil
+}
+func (f c8keyfetch) Set(eval.VariableKey, string, eval.Value) error { return nil }
+func (f c8keyfetch) Cached(k eval.VariableKey, s string) bool {
+	if k == eval.UndefinedVarKey {
+		return f.byName.Cached(k, s)
+	}
+	_, ok := f.byKey[k]
+	return ok
+}
+
 // c8Result canonically describes what a Compile call produced: the error, or
 // the decompiled program, its table and its behaviour on a few bindings.
 func c8Result(e *eval.Expr, err error) (out string) {
@@ -204,6 +240,19 @@ func c8Result(e *eval.Expr, err error) (out string) {
 			<-e.EventChan
 		}
 		fmt.Fprintf(&sb, "|%v/%v", v, err != nil)
+		// the same binding through the keys the caller's configs assign (x=1, y=2)
+		kf := c8keyfetch{byKey: map[eval.VariableKey]eval.Value{}, byName: b}
+		if x, ok := b["x"]; ok {
+			kf.byKey[1] = x
+		}
+		if y, ok := b["y"]; ok {
+			kf.byKey[2] = y
+		}
+		v, err = e.Eval(&eval.Ctx{VariableFetcher: kf})
+		for len(e.EventChan) > 0 {
+			<-e.EventChan
+		}
+		fmt.Fprintf(&sb, "~%v/%v", v, err != nil)
 	}
 	return sb.String()
 }
@@ -224,14 +273,14 @@ func c08(r *rep.Run) {
 		depth = 4
 		r.SetBudget(1800e9)
 	}
-	r.Rule = "three caller configs with different contents (constants, registered/undefined-mode variables, operators with f declared stateless in two of them, costs, options, a stateless list with spare capacity) x 11 sources (every directive form incl. after an ordinary comment, sources failing at each parser stage, undefined variables, stateless and non-stateless operators). (1) every history of Compile(config_i, source_j) calls up to the depth bound (from the third step on the last call is one of 6 probing sources): after every call every config's public contents are unchanged and the result (error text, or Dump + DumpTable + behaviour on 3 bindings) equals the result of the same call made first on fresh equal configs; each history is also replayed to expose iteration-order nondeterminism. (2) copy histories: every chain of CopyConfig / NewConfig(ExtendConf) up to depth 3 followed by every single mutation (insert/overwrite/delete in each of the 5 maps, overwrite/append on the stateless list) of either side: the other side is unchanged. (3) every interleaving of 2 and 3 concurrent Compile calls on one shared config whose folding invokes the harness's stateless operator (scheduling point), plus a free-running race-detector pass (Compile + CopyConfig + ExtendConf on one config). non-trivial = histories in which a directive-bearing or failing compilation precedes another compilation"
+	r.Rule = "three caller configs with different contents plus the nil config (constants, registered/undefined-mode variables, two names aliased to one variable key, operators with f declared stateless in two of them, costs, options, a stateless list with spare capacity) x 17 sources (every directive form incl. after an ordinary comment, sources failing at each parser stage, undefined variables, stateless and non-stateless operators). (1) every history of Compile(config_i, source_j) calls up to the depth bound (from the third step on the last call is one of 6 probing sources): after every call every config's public contents are unchanged and the result (error text, or Dump + DumpTable + behaviour on 3 bindings, each through a by-name and a by-key fetcher) equals the result of the same call made first on fresh equal configs; each history is also replayed to expose iteration-order nondeterminism. (2) copy histories: every chain of CopyConfig / NewConfig(ExtendConf) up to depth 3 followed by every single mutation (insert/overwrite/delete in each of the 5 maps, overwrite/append on the stateless list) of either side: the other side is unchanged. (3) every interleaving of 2 and 3 concurrent Compile calls on one shared config whose folding invokes the harness's stateless operator (scheduling point), plus a free-running race-detector pass (Compile + CopyConfig + ExtendConf on one config). non-trivial = histories in which a directive-bearing or failing compilation precedes another compilation"
 	r.Assume = []string{"Config equality is equality of the exported fields (maps by content, operators by function identity)",
 		"scheduling points inside Compile exist only where it calls back into the environment (stateless operator during folding); the rest is covered by the race pass"}
 
 	// isolated results: each (config, source) compiled first on fresh configs
 	// IN A FRESH PROCESS (state that Compile might keep at package level
 	// cannot be reset from inside, so an in-process baseline would inherit it)
-	nC := 3
+	nC := c8nC
 	iso := make([][]string, nC)
 	for ci := 0; ci < nC; ci++ {
 		iso[ci] = make([]string, len(c8Sources))
@@ -484,9 +533,22 @@ func c08Copies(r *rep.Run) int64 {
 			}
 		}
 	}
-	// nil origin
+	// nil origin: every copy of nil is a usable empty config, independent of every other one
 	if c := eval.CopyConfig(nil); c == nil || c.ConstantMap == nil {
 		r.Violate("copy-nil", "nil", "CopyConfig(nil) does not return a usable empty config", nil)
+	} else {
+		empty := c8Snapshot(eval.NewConfig())
+		for mi, m := range muts {
+			a, b := eval.CopyConfig(nil), eval.CopyConfig(nil)
+			if s := c8Snapshot(a); s != empty {
+				r.Violate("copy-nil", sprintf("fresh%d", mi), "CopyConfig(nil) is not an empty default config (after an earlier copy of nil was modified)", map[string]interface{}{"got": s, "want": empty})
+			}
+			m.do(a)
+			if s := c8Snapshot(b); s != empty {
+				r.Violate("copy-shares-state", sprintf("nil%d", mi), sprintf("%q on one CopyConfig(nil) result changed another one", m.name), map[string]interface{}{"mutation": m.name, "after": s})
+			}
+			n++
+		}
 	}
 	r.Cov["copy_histories"] = n
 	r.Sample(6, map[string]interface{}{"copy_history": []string{"CopyConfig", "NewConfig(ExtendConf)", "Stateless overwrite element on the last copy"}})
@@ -643,7 +705,7 @@ func c08Race(r *rep.Run) {
 // C08FreeRun: concurrent Compile (all sources) + CopyConfig + ExtendConf on
 // one shared config per config kind, free-running.
 func C08FreeRun(iters int) (string, error) {
-	nC := 3
+	nC := c8nC
 	iso := make([][]string, nC)
 	for ci := 0; ci < nC; ci++ {
 		iso[ci] = make([]string, len(c8Sources))
